@@ -385,6 +385,8 @@ class Facts:
         from . import inline, renames
         # private functions renamed by a maintainer get their old names back (renames.py)
         self.renamed = renames.undo_renames(self.j, renames.load_signatures()) if use_inliner else {}
+        if use_inliner:
+            self.renamed.update(renames.undo_rehoming(self.j, renames.load_signatures()))
         self.folded = sum(inline.fold_const_switches(b) for b in self.j["bodies"])
         self.inlined = inline.inline_helpers(self.j["bodies"], inline.load_known()) if use_inliner else {}
         if use_inliner:
